@@ -223,24 +223,34 @@ func inferPeekContracts(prog *core.Program, pk *packages.Package, cfg *bounds.Co
 			continue
 		}
 		idx := nIdx
-		sp.Post = func(v bounds.View) []lin.Fact {
-			n, ok1 := v.Result(idx)
-			off, ok2 := v.RecvField("offset")
-			off0, ok3 := v.RecvFieldEntry("offset")
-			lp, ok4 := v.RecvFieldLen("p")
-			if !ok1 || !ok2 || !ok3 || !ok4 {
-				return []lin.Fact{lin.LE(lin.Const(1), lin.Const(0))}
+		// candidates from strong to weak: the first one proved on the helper's own body is kept. The weak one is
+		// that of a helper which measures an item without checking that its bytes are there (the caller checks).
+		for _, withAvail := range []bool{true, false} {
+			withAvail := withAvail
+			sp.Post = func(v bounds.View) []lin.Fact {
+				n, ok1 := v.Result(idx)
+				off, ok2 := v.RecvField("offset")
+				off0, ok3 := v.RecvFieldEntry("offset")
+				lp, ok4 := v.RecvFieldLen("p")
+				if !ok1 || !ok2 || !ok3 || !ok4 {
+					return []lin.Fact{lin.LE(lin.Const(1), lin.Const(0))}
+				}
+				fs := []lin.Fact{lin.LE(lin.Const(1), n), lin.LE(off, off0), lin.LE(off0, off)}
+				if withAvail {
+					fs = append(fs, lin.LE(n.Add(off), lp))
+				}
+				return fs
 			}
-			return []lin.Fact{lin.LE(lin.Const(1), n), lin.LE(n.Add(off), lp), lin.LE(off, off0), lin.LE(off0, off)}
-		}
-		obs, unsup := bounds.Analyze(cfg, funcSource(root, f, false))
-		proved := len(unsup) == 0
-		for _, ob := range obs {
-			if ob.Rule == "O-post" && !ob.OK {
-				proved = false
+			obs, unsup := bounds.Analyze(cfg, funcSource(root, f, false))
+			proved := len(unsup) == 0
+			for _, ob := range obs {
+				if ob.Rule == "O-post" && !ob.OK {
+					proved = false
+				}
 			}
-		}
-		if !proved {
+			if proved {
+				break
+			}
 			sp.Post = nil
 		}
 	}
